@@ -5,6 +5,16 @@ HERE = os.path.dirname(os.path.dirname(os.path.abspath(__file__)))
 ALL = ['C%02d' % i for i in range(1, 21)]
 
 CLAIMED = {
+ 'C08': dict(
+    level='model_checking',
+    text='Shapes.tla enumerates every statement shape (nesting of IF/ELSEIF/ELSE, single-line IF, FOR, WHILE, DO, SELECT with empty and '
+         'non-empty bodies) up to N nodes, each tree exactly once; every shape is instantiated so that each branch runs, at module level '
+         'and inside a SUB, compiled with and without -g at each level: acceptance must agree, the literal/data/global sections must be '
+         'byte-identical, and Trace_QB.tla validates events and outcome of all six builds against the source semantics, so a build that '
+         'differs from its counterpart or from the specification is reported (debug-differs:*). Generated whole programs likewise.',
+    note='Trusted: TLC, the shape instantiation and unparser, the event observer. Programs executing RESUME are not generated here.',
+    technique='TLC enumeration of statement shapes + TLA+ source semantics; trace validation of -g and non -g builds',
+    design='6 C08'),
  'C07': dict(
     level='model_checking',
     text='Three parts. (i) Totality sweep: ~100 failing-capable statement templates inside and outside the reference subset (arithmetic, '
